@@ -1280,7 +1280,7 @@ func c12(c *core.Ctx, r *core.Report) {
 	})
 
 	rule(r, "C12.R2", "pass-through: NewDistribution(none) and intervals ≤ 100 ms return the interval and rate parameters themselves; otherwise the sub-tick is the constant 100 ms and tickSteps = interval.Milliseconds() / (100 ms).Milliseconds()", func() {
-		nd := c.MustFn(apkg, "NewDistribution")
+		nd := delegateTarget(c.MustFn(apkg, "NewDistribution"))
 		sawNone := false
 		isNoneLit := func(cond ssa.Value, val bool) bool {
 			bo, ok := cond.(*ssa.BinOp)
@@ -1608,16 +1608,18 @@ func c12(c *core.Ctx, r *core.Report) {
 
 // ---------------------------------------------------------------- C13
 
-func c13(c *core.Ctx, r *core.Report) {
-	r.Explanation = "Decided structurally: (R1) carry conservation on the jitter closure's balance (analysis H): requested = rate + balance; returns int(rounded); balance' = requested − rounded, exactly once on every path — the shape from which Σ out = Σ rate − balance_final follows; " +
-		"(R2) the value converted and returned is math.Max(0, ·): outputs are non-negative; (R3) the zero-jitter early return, when present, returns the rate parameter itself. NOT decided: the fixed bound on the running difference and the per-value ±jitter% bound (magnitude reasoning over the random factor)."
-	r.NotDecided = []string{"bound on |Σ jittered − Σ rate|", "each value within jitter % of rate + carried remainder"}
-	wj := c.MustFn("internal/trigger/api", "WithJitter")
-	// by role: the jitter function is the RateFunction value WithJitter returns that is not its own parameter
-	// (a function literal today; a bound method after a refactor)
+// jitterFnOf: the function value a jitter constructor hands back that is not its own parameter — a function literal,
+// a bound method, or what a helper it delegates to hands back (`WithJitter` → `withJitterSource(…, rand.Float64)`).
+func jitterFnOf(fn *ssa.Function, depth int) (*ssa.Function, ssa.Value) {
+	if fn == nil || fn.Blocks == nil || depth <= 0 {
+		return nil, nil
+	}
 	var cl *ssa.Function
 	var clVal ssa.Value
-	for _, ret := range an.Returns(wj) {
+	for _, ret := range an.Returns(fn) {
+		if len(ret.Results) != 1 {
+			continue
+		}
 		v := an.Strip(ret.Results[0])
 		switch x := v.(type) {
 		case *ssa.MakeClosure:
@@ -1626,13 +1628,68 @@ func c13(c *core.Ctx, r *core.Report) {
 			}
 		case *ssa.Function:
 			cl, clVal = x, x
+		case *ssa.Call:
+			if g := an.Callee(x); g != nil && g != fn && core.InModule(g) && an.IsNamed(g.Signature.Results().At(0).Type(), apiPkg, "RateFunction") {
+				if f, v2 := jitterFnOf(g, depth-1); f != nil {
+					cl, clVal = f, v2
+				}
+			}
 		}
 	}
+	return cl, clVal
+}
+
+// isJitterMaker: a function of the api package that wraps a rate into the jitter function (WithJitter and its
+// variants: all of them hand back the same jitter function).
+func isJitterMaker(c *core.Ctx, f *ssa.Function) bool {
+	if f == nil || core.RelPkg(f) != "internal/trigger/api" {
+		return false
+	}
+	if f.Name() == "WithJitter" {
+		return true
+	}
+	if f.Signature.Results().Len() != 1 || !an.IsNamed(f.Signature.Results().At(0).Type(), apiPkg, "RateFunction") {
+		return false
+	}
+	base, _ := jitterFnOf(c.MustFn("internal/trigger/api", "WithJitter"), 3)
+	own, _ := jitterFnOf(f, 3)
+	return base != nil && own == base
+}
+
+func c13(c *core.Ctx, r *core.Report) {
+	r.Explanation = "Decided structurally: (R1) carry conservation on the jitter closure's balance (analysis H): requested = rate + balance; returns int(rounded); balance' = requested − rounded, exactly once on every path — the shape from which Σ out = Σ rate − balance_final follows; " +
+		"(R2) the value converted and returned is math.Max(0, ·): outputs are non-negative; (R3) the zero-jitter early return, when present, returns the rate parameter itself. NOT decided: the fixed bound on the running difference and the per-value ±jitter% bound (magnitude reasoning over the random factor)."
+	r.NotDecided = []string{"bound on |Σ jittered − Σ rate|", "each value within jitter % of rate + carried remainder"}
+	wj := c.MustFn("internal/trigger/api", "WithJitter")
+	// by role: the jitter function is the RateFunction value WithJitter returns that is not its own parameter
+	// (a function literal today; a bound method after a refactor)
+	cl, clVal := jitterFnOf(wj, 3)
 	rule(r, "C13.R1", "carry conservation on `balance` (analysis H)", func() {
 		if cl == nil {
 			panic(core.AnchorError{What: "WithJitter's jitter function (a function value returned by WithJitter)"})
 		}
-		cells := cellsOf(cl)
+		// the carry is the fractional cell; an integer cell that is only ever increased by a constant (a tick count kept
+		// for an accessor) carries nothing
+		var cells []cell
+		for _, k := range cellsOf(cl) {
+			if isIntType(k.elem()) {
+				counter := true
+				for _, st := range k.stores(cl) {
+					bo, isBin := st.Val.(*ssa.BinOp)
+					if !isBin || bo.Op != token.ADD {
+						counter = false
+						continue
+					}
+					if _, isK := bo.Y.(*ssa.Const); !isK || !k.loadOf(bo.X) {
+						counter = false
+					}
+				}
+				if counter {
+					continue
+				}
+			}
+			cells = append(cells, k)
+		}
 		if len(cells) != 1 {
 			r.Violation("WithJitter#cells", c.Pos(cl.Pos()), "the jitter function writes %d persistent variables (expected exactly one carry cell)", len(cells))
 			return
@@ -1640,14 +1697,24 @@ func c13(c *core.Ctx, r *core.Report) {
 		k := cells[0]
 		if carryTemplate(c, r, cl, k, "balance") {
 			// the rate term is the wrapped rate's value of this tick, evaluated once
+			// on every way through one tick (the evaluation may sit on either side of a zero-jitter test)
 			evals := 0
+			exits := an.PathCount(cl, func(in ssa.Instruction) an.Interval {
+				if call, isCall := in.(ssa.CallInstruction); isCall {
+					if n := an.DynCallType(call); n != nil && an.IsNamed(n, apiPkg, "RateFunction") {
+						return an.Interval{Lo: 1, Hi: 1}
+					}
+				}
+				return an.Interval{}
+			})
 			for _, call := range an.AllCalls(cl) {
 				if n := an.DynCallType(call); n != nil && an.IsNamed(n, apiPkg, "RateFunction") {
 					evals++
-					r.Check(!an.InLoop(call) && len(an.GuardsOf(call.Block())) == 0, "WithJitter#rate-eval", an.Pos(c, call), "wrapped rate evaluated once, unconditionally", "the wrapped rate is evaluated conditionally or repeatedly")
 				}
 			}
-			r.Check(evals == 1, "WithJitter#rate-eval-sites", c.Pos(cl.Pos()), "one evaluation of the wrapped rate per tick", sprintf("%d evaluations of the wrapped rate per tick", evals))
+			tot, okTot := an.Total(exits, false)
+			r.Check(okTot && tot.Lo == 1 && tot.Hi == 1, "WithJitter#rate-eval", c.Pos(cl.Pos()), "wrapped rate evaluated exactly once on every path of a tick", "the wrapped rate is evaluated "+tot.String()+" times per tick (expected exactly once on every path)")
+			r.Check(evals >= 1, "WithJitter#rate-eval-sites", c.Pos(cl.Pos()), "the wrapped rate is evaluated", "the wrapped rate is never evaluated")
 			for _, st := range k.stores(cl) {
 				term := carryTerms[st]
 				isRate := false
@@ -1668,7 +1735,26 @@ func c13(c *core.Ctx, r *core.Report) {
 		if cl == nil {
 			panic(core.AnchorError{What: "WithJitter's jitter function"})
 		}
-		nonNegReturns(c, r, cl, nil)
+		// with zero jitter the wrapped rate's own value is passed on (C13.R3: the identity); that return is the
+		// profile's request, not a jittered one
+		nonNegReturns(c, r, cl, func(v ssa.Value) (bool, string) {
+			call, ok := noConv(v).(*ssa.Call)
+			if !ok || an.Callee(call) != nil || call.Call.IsInvoke() || !an.IsNamed(call.Call.Value.Type(), apiPkg, "RateFunction") {
+				return false, ""
+			}
+			for _, g := range an.GuardsOf(call.Block()) {
+				bo, isBin := g.Cond.(*ssa.BinOp)
+				if !isBin || bo.Op != token.EQL || !g.Polarity {
+					continue
+				}
+				if k, isK := bo.Y.(*ssa.Const); isK && k.Value != nil && an.D().Of(k) == "0" {
+					if b, isB := bo.X.Type().Underlying().(*types.Basic); isB && b.Info()&types.IsFloat != 0 {
+						return true, "zero jitter: the wrapped rate's own request is passed on unchanged"
+					}
+				}
+			}
+			return false, ""
+		})
 	})
 	rule(r, "C13.R3", "zero jitter is the identity: a return guarded by multiple == 0 returns the rate parameter itself (absence of the early return is not an alarm)", func() {
 		n := 0
